@@ -167,6 +167,9 @@ pub fn run(ws: &[&str]) -> String {
                 h.insert(http::header::DATE, http::HeaderValue::from_static("Thu, 01 Jan 1970 00:00:00 GMT"));
                 h.insert("x-ratelimit-reset", http::HeaderValue::from_static("1"));
                 h.insert("x-poll-interval", http::HeaderValue::from_static("1"));
+                for (n, v) in extra_noise_headers() {
+                    h.insert(http::HeaderName::from_bytes(n.as_bytes()).unwrap(), http::HeaderValue::from_str(v).unwrap());
+                }
             }
             resp
         })
